@@ -825,7 +825,9 @@ def project(line, for_model=True, level="bytes"):
     """what of an answer line is compared with the model.  level="bytes": everything (every emitted datagram byte for byte);
     level="session": drop the events the session-level model does not produce (tx, dq) and the bytes of nsa/fwd"""
     if level == "bytes":
-        return " | ".join(p.strip() for p in line.split(" | "))
+        # `badfam <kind> <dst> <hex>` (the harness's emulation of the kernel refusing a destination of the other address family on a socket) is
+        # compared as the send that was attempted: the model has no sockets
+        return " | ".join((p.strip()[7:] if p.strip().startswith("badfam ") else p.strip()) for p in line.split(" | "))
     parts = [p.strip() for p in line.split(" | ")]
     keep = []
     for p in parts:
